@@ -197,6 +197,7 @@ class FakeSocket:
         self.ip = ip           # '' = wildcard
         self.role = role       # 'listen' | 'respond' | 'both'
         self.scope = scope
+        self.link = getattr(host, "link", 0)   # the link this socket's interface is attached to
         self.transport: Optional["FakeTransport"] = None
         self.protocol: Any = None
         self.closed = False
@@ -263,13 +264,20 @@ class FakeTransport(asyncio.DatagramTransport):
 
 class SimHost:
     """One machine on the link.  layout 'single': one socket listens and sends (InterfaceChoice.Default);
-    'split': wildcard listen socket (multicast only) + one respond socket per address (send + unicast receive)."""
+    'split': wildcard listen socket (multicast only) + one respond socket per address (send + unicast receive).
+    `link` is the link the host is attached to (all hosts are on link 0 unless said otherwise); a 'split' host given `ip6b`
+    has a second IPv6 interface (scope id 3) on link 1 - a multi-homed machine whose wildcard listen socket has joined the
+    group on both links and which has one sender socket per interface."""
 
-    def __init__(self, net: "Net", name: str, ip4: Optional[str], ip6: Optional[str] = None, layout: str = "single"):
+    def __init__(self, net: "Net", name: str, ip4: Optional[str], ip6: Optional[str] = None, layout: str = "single",
+                 ip6b: Optional[str] = None, link: int = 0):
         self.net = net
         self.name = name
         self.ip4 = ip4
         self.ip6 = ip6
+        self.ip6b = ip6b
+        self.link = link
+        self.links = {link} | ({1} if ip6b else set())
         self.layout = layout
         self.listen: List[FakeSocket] = []
         self.respond: List[FakeSocket] = []
@@ -296,6 +304,10 @@ class SimHost:
             self.respond.append(FakeSocket(self, socket.AF_INET, self.ip4, "respond"))
         if self.ip6:
             self.respond.append(FakeSocket(self, socket.AF_INET6, self.ip6, "respond", scope=2))
+        if self.ip6b:
+            s2 = FakeSocket(self, socket.AF_INET6, self.ip6b, "respond", scope=3)
+            s2.link = 1
+            self.respond.append(s2)
         return ls, list(self.respond)
 
     def all_sockets(self) -> List[FakeSocket]:
@@ -378,8 +390,9 @@ class Net:
         self.current_delivery: Optional[Dict[str, Any]] = None   # set while a datagram is being processed by a protocol
 
     # -- topology
-    def add_host(self, name: str, ip4: Optional[str], ip6: Optional[str] = None, layout: str = "single") -> SimHost:
-        h = SimHost(self, name, ip4, ip6, layout)
+    def add_host(self, name: str, ip4: Optional[str], ip6: Optional[str] = None, layout: str = "single",
+                 ip6b: Optional[str] = None, link: int = 0) -> SimHost:
+        h = SimHost(self, name, ip4, ip6, layout, ip6b, link)
         self.hosts.append(h)
         return h
 
@@ -400,8 +413,17 @@ class Net:
         self.tx_count += 1
         multicast = dst_ip in (MDNS4, MDNS6)
         ctx = self.current_delivery
+        # the link a multicast datagram leaves by: the socket's interface - unless the destination carries a scope id, which
+        # takes precedence over the socket's multicast interface the way it does in the kernel (a scope id that names none of
+        # the host's interfaces: the datagram goes nowhere)
+        egress: Optional[int] = sock.link
+        dst_scope = addr[3] if (v6 and len(addr) >= 4) else 0
+        if multicast and dst_scope:
+            by_scope = {s.scope: s.link for s in host.all_sockets() if s.scope}
+            egress = by_scope.get(dst_scope)
         entry = {"ctx": None if ctx is None else dict(ctx), "i": idx, "t": self.clock.ms(), "host": host.name, "sock": sock.role, "sock_ip": sock.ip, "fd": sock.fileno(),
-                 "src": src, "dst": (dst_ip, dst_port), "data": data, "mcast": multicast, "closing": bool(sock.transport and sock.transport.closing)}
+                 "src": src, "dst": (dst_ip, dst_port), "data": data, "mcast": multicast, "closing": bool(sock.transport and sock.transport.closing),
+                 "dst_scope": dst_scope, "sock_scope": sock.scope, "egress": egress}
         self.trace.append(entry)
         if self.on_transmit is not None:
             self.on_transmit(entry)          # observation hook (e.g. snapshot the sender's cache at the send instant)
@@ -412,7 +434,7 @@ class Net:
             if dst_port != PORT:
                 return
             for h in self.hosts:
-                if h.partitioned:
+                if h.partitioned or egress not in h.links:
                     continue
                 for ls in h.listen:
                     if ls.closed or ls.transport is None:
@@ -421,7 +443,7 @@ class Net:
                     if not fam_ok:
                         continue
                     for d in self.policy.plan(idx, host, h.name, h is host):
-                        self._schedule(ls, data, src, v6, d, idx)
+                        self._schedule(ls, data, src, v6, d, idx, via_link=egress or 0)
             for e in self.endpoints:
                 if e.port == PORT and ((":" in e.ip) == v6):
                     e.received.append({"t": self.clock.ms(), "src": src, "data": data, "mcast": True, "i": idx})
@@ -430,7 +452,7 @@ class Net:
             for h in self.hosts:
                 if h.partitioned or dst_port != PORT:
                     continue
-                if dst_ip not in (h.ip4, h.ip6):
+                if dst_ip not in (h.ip4, h.ip6, h.ip6b):
                     continue
                 target = None
                 for rs in h.respond:   # most specific binding wins
@@ -454,9 +476,11 @@ class Net:
         self.dead_sends.append({"t": self.clock.ms(), "host": sock.host.name, "dst": addr, "data": data})
 
     # -- delivery
-    def _schedule(self, sock: FakeSocket, data: bytes, src: Tuple, v6: bool, delay_ms: float, tx_index: int = -1) -> None:
+    def _schedule(self, sock: FakeSocket, data: bytes, src: Tuple, v6: bool, delay_ms: float, tx_index: int = -1, via_link: int = 0) -> None:
         assert self.loop is not None
         addr = self._addr_for(sock, src, v6)
+        if len(addr) == 4 and v6 and not sock.scope and sock.host.ip6b and via_link == 1:
+            addr = (addr[0], addr[1], 0, 3)      # heard on the second interface of a multi-homed host
         self.loop.call_at(self.clock.t + delay_ms / 1000.0, self._deliver, sock, data, addr, tx_index)
 
     @staticmethod
